@@ -184,6 +184,39 @@ Lemma check_stmt_SFor C G inv il e te b :
   end.
 Proof. reflexivity. Qed.
 
+Lemma check_stmt_SGuard C G inv il c b :
+  check_stmt C G inv il (SGuard c b) =
+  match check_expr C G inv c with
+  | Some (c', TBool, i0) =>
+    match check_block C G i0 il b with
+    | Some (b', i1, r1) =>
+      if r1 then Some (SGuard c' b', G, union i0 (scope (length G) i1), false) else None
+    | None => None
+    end
+  | _ => None
+  end.
+Proof. reflexivity. Qed.
+
+Lemma check_stmt_SGuardLet C G inv il e tv b rest :
+  check_stmt C G inv il (SGuardLet e tv b rest) =
+  match check_expr C G inv e with
+  | Some (e', TOpt t, i0) =>
+    match check_block C G i0 il b with
+    | Some (b', i1, r1) =>
+      if r1 then
+        match check_block C (G ++ [t]) i0 il rest with
+        | Some (rest', i2, r2) =>
+          Some (SGuardLet e' (TOpt t) b' rest', G,
+                union (scope (length G) i1) (scope (length G) i2), r2)
+        | None => None
+        end
+      else None
+    | None => None
+    end
+  | _ => None
+  end.
+Proof. reflexivity. Qed.
+
 Lemma check_block_eq C G inv il b :
   check_block C G inv il b =
   match b with
@@ -809,6 +842,11 @@ Section sound.
   Lemma out_return rt il v : wt D v rt = true -> out_ok rt il true (OReturn v).
   Proof. intro H. repeat split; intros; try discriminate. inversion H0; subst; exact H. Qed.
 
+  Lemma out_ok_true_any rt il b o : out_ok rt il true o -> out_ok rt il b o.
+  Proof.
+    intros (H1 & H2 & H3). split; [|split; assumption]. intros _. apply H1. reflexivity.
+  Qed.
+
   Lemma out_ok_and rt il a b o : out_ok rt il a o -> out_ok rt il (a && b) o.
   Proof.
     intros (H1 & H2 & H3). split; [|split; assumption]. intro H. apply andb_true_iff in H as [H _]. auto.
@@ -850,6 +888,7 @@ Section sound.
     destruct s;
       first [ rewrite check_stmt_SIf in Hc | rewrite check_stmt_SIfLet in Hc
             | rewrite check_stmt_SWhile in Hc | rewrite check_stmt_SFor in Hc
+            | rewrite check_stmt_SGuard in Hc | rewrite check_stmt_SGuardLet in Hc
             | cbn in Hc ].
     - (* SLet *) inv_check Hc. clear Hc0. simpl.
       ih_e IH E He v r1 Hv He1. simpl.
@@ -952,6 +991,27 @@ Section sound.
       intro Ht. apply ty_eqb_eq in Ht. subst. exfalso. eapply wt_never_inv; eauto.
     - (* SDestroy *) inv_check Hc. clear Hc0. simpl.
       ih_e IH E He v r1 Hv He1. simpl. split; [assumption | apply out_normal].
+    - (* SGuard *) inv_check Hc. clear Hc0. simpl.
+      ih_e IH E He vc r1 Hvc He1. simpl.
+      apply wt_bool_inv in Hvc as (bb & ->). rewrite (env_ok_length D _ _ _ He1). destruct bb.
+      + simpl. split; [apply env_ok_app_l; assumption | apply out_normal].
+      + ih_b IHb E0 He1 o r2 Heo Hout. simpl.
+        destruct o; simpl;
+          try (split; [apply env_ok_app_r; assumption | apply (out_ok_true_any _ _ false); assumption]).
+        destruct Hout as (Hn & _). apply (Hn eq_refl). reflexivity.
+    - (* SGuardLet *) inv_check Hc. clear Hc0. simpl.
+      ih_e IH E He v0 r1 Hv0 He1. simpl.
+      rewrite (env_ok_length D _ _ _ He1).
+      do_transfer (wt_wfv D _ _ Hv0) (wt_sub D _ _ Hv0) (subtype_refl (TOpt t)) v Hv. simpl.
+      apply wt_opt_inv in Hv as [-> | (w & -> & Hw)].
+      + ih_b IHb E0 He1 o r2 Heo Hout. simpl.
+        destruct o; simpl;
+          try (split; [apply env_ok_app_l; assumption | apply (out_ok_true_any _ _ ret); assumption]).
+        destruct Hout as (Hn & _). apply (Hn eq_refl). reflexivity.
+      + pose proof (env_ok_push D _ _ _ _ _ He1 Hw) as Hep.
+        ih_b IHb E1 Hep o r2 Heo Hout. simpl.
+        apply env_ok_pop_block in Heo.
+        split; [apply env_ok_app_r; assumption | assumption].
   Qed.
 
   (* a statement only extends the variable context (let) *)
@@ -962,6 +1022,7 @@ Section sound.
     destruct s;
       first [ rewrite check_stmt_SIf in Hc | rewrite check_stmt_SIfLet in Hc
             | rewrite check_stmt_SWhile in Hc | rewrite check_stmt_SFor in Hc
+            | rewrite check_stmt_SGuard in Hc | rewrite check_stmt_SGuardLet in Hc
             | cbn in Hc ];
       try (destruct e as [e|]; cbn in Hc);
       inv_check Hc; try (exists []; rewrite app_nil_r; reflexivity).
